@@ -812,6 +812,41 @@ func init() {
 			if err != nil {
 				return err
 			}
+			// every listing of pkg/ref counts (a listing of one namespace is even less than a snapshot:
+			// a destination outside it looks new), and so does a helper of the gating package that
+			// builds its map from listings (round 7, C10-r7m3)
+			for f := range pkgFuncsReturningError(p, "pkg/ref", "List") {
+				listers[f] = true
+			}
+			var wraps func(g *ssa.Function, depth int) bool
+			wraps = func(g *ssa.Function, depth int) bool {
+				found := false
+				eachCall(g, func(c ssa.CallInstruction) {
+					if isCallTo(c, listers) != nil {
+						found = true
+					} else if sc := c.Common().StaticCallee(); sc != nil && depth > 0 && sc != g && len(sc.Blocks) > 0 && fnPkgPath(sc) == fnPkgPath(g) && wraps(sc, depth-1) {
+						found = true
+					}
+				})
+				return found
+			}
+			isListing := func(fn *ssa.Function, call *ssa.Call) bool {
+				if isCallTo(call, listers) != nil {
+					return true
+				}
+				sc := call.Call.StaticCallee()
+				if sc == nil || len(sc.Blocks) == 0 || fnPkgPath(sc) != fnPkgPath(fn) {
+					return false
+				}
+				res := sc.Signature.Results()
+				hasMap := false
+				for i := 0; i < res.Len(); i++ {
+					if _, ok := res.At(i).Type().Underlying().(*types.Map); ok {
+						hasMap = true
+					}
+				}
+				return hasMap && wraps(sc, 2)
+			}
 			for _, fn := range fns {
 				n := 0
 				for _, b := range fn.Blocks {
@@ -834,7 +869,7 @@ func init() {
 						// does the map come from a listing of local refs made outside this loop?
 						var lister *ssa.Call
 						for v := range backward(lk.X, nil) {
-							if call, ok := v.(*ssa.Call); ok && isCallTo(call, listers) != nil && !loopBody(h)[call.Block()] {
+							if call, ok := v.(*ssa.Call); ok && isListing(fn, call) && !loopBody(h)[call.Block()] {
 								lister = call
 							}
 						}
